@@ -48,6 +48,7 @@ func (r *Report) add(status, rule, key, pos, detail string) {
 	if r.only != nil && !r.only[rule] {
 		return
 	}
+	key, detail = stripAddrs(key), stripAddrs(detail) // value identities (@0x..) are run-specific: keys are stable across runs
 	k := rule + "|" + key
 	if r.seen[k] {
 		// duplicate key: keep the worst status
